@@ -105,7 +105,9 @@ def run(ctx):
 
     # ---------------------------------------------------------------- model vs implementation
     mism = None
-    sel = cases if ctx.thorough else [c for c in cases if c["I"] % 12 == ctx.seed % 12 or (c.get("Oracle") and c["I"] % 2 == 0)]
+    # the Coq evaluation costs ~40 ms per case: quick samples 1 case in 12, thorough 1 in 3 (all cases would take > 15 min)
+    step = 3 if ctx.thorough else 12
+    sel = [c for c in cases if c["I"] % step == ctx.seed % step or (c.get("Oracle") and c["I"] % 2 == 0)]
     ok_eval, out_eval = ctx.coq_build(["theories/C25/Eval.vo"])
     if not ok_eval:
         ctx.tie_broken("C25/Model.v or C25/Eval.v does not compile", out_eval)
@@ -159,7 +161,7 @@ def run(ctx):
         lines.append("Definition res := %s." % " ++ ".join(names))
         lines.append("Definition bad := filter (fun p => negb (snd p)) (combine (seq 0 (length res)) res).")
         lines.append("Eval vm_compute in (length res, length bad, map fst (firstn 5 bad)).")
-        rc2, o2 = ctx.coq_eval("cases_C25", "\n".join(lines) + "\n")
+        rc2, o2 = ctx.coq_eval("cases_C25", "\n".join(lines) + "\n", timeout=1800)
         m = re.search(r"= \((\d+)%nat, (\d+)%nat, (\[.*?\])\)", " ".join(o2.split()))
         if rc2 != 0 or not m:
             ctx.tie_broken("model evaluation (cases_C25.v did not evaluate)", o2[-3000:])
